@@ -64,7 +64,7 @@ CLAIMED["C18"] = {
     "technique": "Coq proofs (case analysis on the default forms) + ground-truth oracle on real outputs",
 }
 CLAIMED["C19"] = {
-    "text": "Theorems C19_property_syntax, C19_literal_event, C19_registry_complete; the event set received by the REAL output is compared as a set with the one the generator encoded (function type, union of function types, call-signature literal/interface, extends chains, property syntax, literal-union aliases, declarations before/after use); no SetupContext<E> annotation => no emits added.",
+    "text": "C19_names_are_expanded: on a grammar of name types (string literals, unions of any width, alias chains, any depth) resolve_string_or_union_strings returns exactly the names written, by induction. Theorems C19_property_syntax, C19_literal_event, C19_registry_complete; the event set received by the REAL output is compared as a set with the one the generator encoded (function type, union of function types, call-signature literal/interface, extends chains, property syntax, literal-union aliases, declarations before/after use); no SetupContext<E> annotation => no emits added.",
     "note": TYPES_NOTE,
     "technique": "Coq proofs (laws) + ground-truth oracle on real outputs",
 }
